@@ -95,6 +95,12 @@ def gen_qr(rng, pools, p_present=0.6, base_ts=None, tps=1000000, full=False):
             if full and n == 0:
                 n = 1
             r[k] = [gen_rr(rng, pools) for _ in range(n)]
+            if k not in ("qq", "rq") and rng.random() < 0.15:
+                # look-alike resource records: one with a TTL only, one with RDATA only, the TTL being a small number (the
+                # range of the table indices the RDATA will get) - distinct records that agree in every present value's position
+                nm = rbytes(rng, pools.names)
+                for j in rng.sample(range(0, 6), 2):
+                    r[k] += [(nm, 1, 1, j, None), (nm, 1, 1, None, rbytes(rng, pools.names))]
             if k in ("qq", "rq"):
                 r[k] = [(n_, t, c, None, None) for (n_, t, c, _, _) in r[k]]
     if on(): r["asn"] = rbytes(rng, [b"AS1234", b""])
